@@ -25,7 +25,8 @@ type rec struct {
 	Key   []byte
 	Part  string // "" for a whole stored value
 	Val   []byte
-	Attr  []byte // bytes searched for identities (defaults to key||val)
+	Attr  []byte // bytes searched for identities (parts of split values only)
+	explicit bool
 	Kind  string
 }
 
@@ -170,6 +171,7 @@ func (e *env) project(ctx sdk.Context) projection {
 			kind := kindOf(name, key)
 			put := func(part string, v, attr []byte, kindSuffix string) {
 				r := &rec{Store: name, Key: key, Part: part, Val: v, Attr: attr, Kind: kind + kindSuffix}
+				r.explicit = attr != nil
 				if attr == nil {
 					r.Attr = append(append([]byte{}, key...), v...)
 				}
@@ -206,23 +208,23 @@ func (e *env) project(ctx sdk.Context) projection {
 				}
 				for _, s := range q.SignData {
 					bz, _ := proto.Marshal(s)
-					put("sig:"+s.ValAddress.String(), bz, nil, "#signature")
+					put("sig:"+s.ValAddress.String(), bz, []byte(s.ValAddress), "#signature")
 				}
 				for i, ev := range q.Evidence {
 					bz, _ := proto.Marshal(ev)
-					put(fmt.Sprintf("evidence:%s:%d", ev.ValAddress.String(), i), bz, nil, "#evidence")
+					put(fmt.Sprintf("evidence:%s:%d", ev.ValAddress.String(), i), bz, []byte(ev.ValAddress), "#evidence")
 				}
 				for _, g := range q.GasEstimates {
 					bz, _ := proto.Marshal(g)
-					put("estimate:"+g.ValAddress.String(), bz, nil, "#gas-estimate")
+					put("estimate:"+g.ValAddress.String(), bz, []byte(g.ValAddress), "#gas-estimate")
 				}
 				if q.PublicAccessData != nil {
 					bz, _ := proto.Marshal(q.PublicAccessData)
-					put("public-access-data", bz, nil, "#public-access-data")
+					put("public-access-data", bz, []byte(q.PublicAccessData.ValAddress), "#public-access-data")
 				}
 				if q.ErrorData != nil {
 					bz, _ := proto.Marshal(q.ErrorData)
-					put("error-data", bz, nil, "#error-data")
+					put("error-data", bz, []byte(q.ErrorData.ValAddress), "#error-data")
 				}
 				body := *q
 				body.SignData, body.Evidence, body.GasEstimates, body.PublicAccessData, body.ErrorData = nil, nil, nil, nil, nil
